@@ -39,6 +39,9 @@ pub struct Report {
     pub partial_path: Option<String>,
     /// signatures starting with this prefix are counted, not reported (borrowed engines)
     pub mute_prefix: Option<String>,
+    /// signatures starting with .0 are reported with that prefix replaced by .1 (an engine borrowed for
+    /// another property's clause)
+    pub rename_prefix: Option<(String, String)>,
 }
 
 impl Report {
@@ -63,6 +66,7 @@ impl Report {
             rule: String::new(),
             partial_path: None,
             mute_prefix: None,
+            rename_prefix: None,
         }
     }
     pub fn begin_history(&mut self, hist: u64) {
@@ -109,6 +113,14 @@ impl Report {
     }
     /// Record a violation (deduplicated by signature per shard: first witness kept, count kept).
     pub fn violation(&mut self, signature: &str, detail: String) {
+        let renamed: String;
+        let signature: &str = match &self.rename_prefix {
+            Some((from, to)) if signature.starts_with(from.as_str()) => {
+                renamed = format!("{to}{}", &signature[from.len()..]);
+                &renamed
+            }
+            _ => signature,
+        };
         // a borrowed engine's own monitors are not this property's business
         if let Some(p) = &self.mute_prefix {
             if signature.starts_with(p.as_str()) {
